@@ -837,7 +837,8 @@ def seq_signature(line, out):
     return None
 
 def lockstep(ctx, harness, model):
-    run_probes(ctx, harness)
+    if "lockstep_probes" not in ctx.stats:
+        run_probes(ctx, harness)
     lines = [l for l in corpus_lines() if l.split()[1] not in ("keylie", "fnkind")] + gen_seqs(ctx)
     for kind in KIND_KEYS:
         for hk in "JG":
@@ -1201,6 +1202,10 @@ def modelcorr(ctx, harness, model):
         for i, op in enumerate(ops):
             nops += 1
             if norm_model_answer(ha[i]) != norm_model_answer(ma[i]):
+                if l.split()[2] == "marr" and op.startswith("set/length/") and ha[i] == "T:RangeError" and ma[i] == "v:f" and "arrlen" in ACTIVE:
+                    # the known array defect (probe `arrlen` still reproduces): an invalid value assigned to a non-writable length
+                    ctx.stats["target_model_known_divergence_array_length_rangeerror"] = ctx.stats.get("target_model_known_divergence_array_length_rangeerror", 0) + 1
+                    break
                 if l.split()[2] == "mta" and op.startswith("del/") and ha[i] == "T:TypeError" and ma[i] == "v:f":
                     ctx.stats["target_model_known_divergence_ta_delete_throws"] = ctx.stats.get("target_model_known_divergence_ta_delete_throws", 0) + 1
                     break      # goja: Reflect.deleteProperty(typedArray, validIndex) throws instead of returning false (typedarrays.go; not proxy.go)
@@ -1254,6 +1259,7 @@ def main(ctx):
     lattice(ctx, harness, model)
     keylie(ctx, harness)
     fnkinds(ctx, harness)
+    run_probes(ctx, harness)
     modelcorr(ctx, harness, model)
     lockstep(ctx, harness, model)
     return ctx.finish(level="proof",
